@@ -10,6 +10,7 @@ import (
 
 	cfg "github.com/lianxiangcloud/linkchain/config"
 	"github.com/lianxiangcloud/linkchain/libs/common"
+	"github.com/lianxiangcloud/linkchain/libs/cryptonote/ringct"
 	lktypes "github.com/lianxiangcloud/linkchain/libs/cryptonote/types"
 	"github.com/lianxiangcloud/linkchain/types"
 	"pgregory.net/rapid"
@@ -20,6 +21,12 @@ import (
 )
 
 const P = "C07"
+
+// torsion8: a point of order 8 on ed25519 (8*T is the identity, T is not).
+var torsion8 = func() (k lktypes.Key) {
+	copy(k[:], common.FromHex("c7176a703d4dd84fba3c0b760d10670f2a2053fa2c39ccc64ec7fd7792ac037a"))
+	return
+}()
 
 func TestMain(m *testing.M) {
 	world.Init()
@@ -186,7 +193,7 @@ func TestDoubleSpendHistory(t *testing.T) {
 		}
 		nops := rapid.IntRange(4, 24).Draw(t, "nops")
 		for i := 0; i < nops; i++ {
-			op := rapid.SampledFrom([]string{"a2u", "transfer", "spend", "spend", "respend-pending", "respend-committed", "dup-ki-in-tx", "inject-two-spends", "inject-committed-spend",
+			op := rapid.SampledFrom([]string{"a2u", "transfer", "spend", "spend", "respend-pending", "respend-committed", "respend-shifted-key-image", "respend-shifted-key-image", "dup-ki-in-tx", "inject-two-spends", "inject-committed-spend",
 				"inject-tx-twice", "inject-replay-old", "inject-nonce-gap", "inject-reorder", "resubmit-committed", "failing-call", "failing-call", "inject-replay-failed", "resubmit-failed", "multisign", "multisign", "commit", "commit", "commit-foreign", "commit-foreign", "restart", "concurrent-respend"}).Draw(t, "op")
 			switch op {
 			case "a2u":
@@ -304,6 +311,54 @@ func TestDoubleSpendHistory(t *testing.T) {
 					if acc {
 						e.fail(t, "validator-accepts-spent-key-image", "a hand-made block spending key image %x, already spent on chain, is accepted by CheckBlock", spent[k].KeyImage[:6])
 					}
+				}
+			case "respend-shifted-key-image":
+				// The spent set compares key images byte by byte, so an output spent under key image I could be spent again under
+				// I + j*T (T a point of order 8, j = 1..7): other bytes, and a ring signature over it verifies for one signing
+				// nonce in eight.  What stands in the way is the requirement that a key image lies in the prime-order subgroup.
+				// The wallet cannot be made to sign over a shifted image, so the oracle is a relation between two transactions
+				// that differ only in that key image: the respend carrying I + j*T must be turned away EARLIER than the same
+				// respend carrying a well-formed key image that is simply not the ring's (a committed output key - it falls at
+				// the ring signature).  If both are turned away for the same reason, the shifted image got as far as the signature.
+				var spent []*world.Owned
+				var owners []*world.Wallet
+				for _, w := range s.Wallets {
+					for _, o := range w.Owned {
+						if o.Spent {
+							spent = append(spent, o)
+							owners = append(owners, w)
+						}
+					}
+				}
+				if len(spent) == 0 {
+					continue
+				}
+				k := rapid.IntRange(0, len(spent)-1).Draw(t, "which")
+				tx := e.respendOf(t, spent[k], owners[k], rapid.IntRange(1, 3).Draw(t, "ring"))
+				if tx == nil {
+					continue
+				}
+				j := rapid.IntRange(1, 7).Draw(t, "torsionmultiple")
+				shifted := spent[k].KeyImage
+				var aerr error
+				for i := 0; i < j && aerr == nil; i++ {
+					shifted, aerr = ringct.AddKeys(shifted, torsion8)
+				}
+				if aerr != nil {
+					continue
+				}
+				bad, ctl := chainsim.Fresh(tx).(*types.UTXOTransaction), chainsim.Fresh(tx).(*types.UTXOTransaction)
+				bad.Inputs[0].(*types.UTXOInput).KeyImage = shifted
+				ctl.Inputs[0].(*types.UTXOInput).KeyImage = s.Outs[common.EmptyAddress][spent[k].GlobalIndex].RingMember.OTAddr
+				errBad := s.W.App.CheckTx(chainsim.Fresh(bad), true)
+				errCtl := s.W.App.CheckTx(chainsim.Fresh(ctl), true)
+				e.attempts++
+				vstat.Label("attempt_respend_shifted_key_image")
+				e.logf("%s of %x (+%d*T) => %v; control with a well-formed foreign key image => %v", op, spent[k].KeyImage[:6], j, errBad, errCtl)
+				if errBad == nil {
+					e.fail(t, "mempool-admits-spent-key-image", "a respend of key image %x shifted by %d*T (a point of order 8) was admitted", spent[k].KeyImage[:6], j)
+				} else if errCtl != nil && errBad.Error() == errCtl.Error() {
+					e.fail(t, "key-image-outside-prime-subgroup-reaches-signature-check", "a respend of the spent key image %x shifted by %d*T (T of order 8; other bytes, so no spent set knows it) is turned away only where a well-formed foreign key image is (%v): the subgroup requirement did not stop it, and a ring signature over a shifted image verifies for one signing nonce in eight", spent[k].KeyImage[:6], j, errBad)
 				}
 			case "dup-ki-in-tx":
 				// the same output twice in one transaction
